@@ -117,8 +117,7 @@ def expect_cex(ctx, what, r, kind):
         ctx.note("model no longer reproduces %s" % what)
 
 
-def run(ctx):
-    t = ctx.tier == "thorough"
+def build_cases(ctx, t, info):
     # ---- 1. design level
     # quick: 2 tasks, main <= 3 ops; thorough: 3 tasks (2 spawns, threads of children), SIGCHLD / group-stop noise
     r = ctx.tlc("Tracer", cfg=mc_cfg(noise="TRUE", ms=2, mm=2, tot=3, child='{"T","K","C"}') if t else mc_cfg(),
@@ -186,12 +185,24 @@ def run(ctx):
     for c in esc:
         cases.append({"script": c["script"], "dec": c["dec"], "filter": "kill", "other": "allow", "reps": 1, "scan": True,
                       "class": {"kind": "race", "name": "setsid", "hostile": "setsid"}})
+    info.update(ngrid=ngrid, nrace=nrace, grid=grid, races=races, esc=esc, reps=reps)
+    return cases
+
+
+def run(ctx):
+    t = ctx.tier == "thorough"
+    info = {"ngrid": 0, "nrace": 0, "grid": [], "races": [], "esc": [], "reps": 1}
     if ctx.replay and ctx.replay.get("case"):
         rc = ctx.replay["case"]
-        cases = [{"raw": rc["raw"], "dec": rc.get("dec") or {}, "filter": rc.get("filter", "trace"), "other": "allow",
-                  "reps": 20 if rc.get("class", {}).get("kind") == "race" else 1, "class": rc.get("class")}]
+        cases = [{"raw": "" if rc.get("script") else rc["raw"], "script": rc.get("script") or [],
+                  "dec": rc.get("dec") or {}, "filter": rc.get("filter", "trace"), "other": "allow",
+                  "reps": 20 if (rc.get("class") or {}).get("kind") == "race" else 1,
+                  "class": rc.get("class") or {"kind": "path", "name": "replay", "hostile": "replay"}}]
+    else:
+        cases = build_cases(ctx, t, info)
     for i, c in enumerate(cases):
         c["id"] = i + 1
+    grid, races, esc, ngrid, nrace, reps = info["grid"], info["races"], info["esc"], info["ngrid"], info["nrace"], info["reps"]
     ctx.log("cases: %d grid (of %d), %d race scripts (of %d) x %d reps x 2, %d setsid" % (len(grid), ngrid, len(races), nrace, reps, len(esc)))
     # ---- 3. real runs
     obs = tc.run_cases(ctx, cases, "c15", shards=4, timeout=ctx.pick(400, 1800))
